@@ -10,6 +10,7 @@ CONSTANTS
   MaxItems = 0
   Addrs = {"none", "4096"}
   Grows = {}
+  Lates = TRUE
   NopKinds = {"1"}
   VariantSet = "geo"
   Rotate = 0
